@@ -93,6 +93,22 @@ class Facts:
         elif d.op == 'xor' and 'true' in d.ops:          # !cond
             other = d.ops[0] if d.ops[1] == 'true' else d.ops[1]
             self._add(other, not truth)
+        elif d.op == 'or' and d.ty == 'i1':
+            if not truth:                                # !(a | b)  =>  !a and !b
+                self._add(d.ops[0], False); self._add(d.ops[1], False)
+        elif d.op == 'and' and d.ty == 'i1':
+            if truth:
+                self._add(d.ops[0], True); self._add(d.ops[1], True)
+        elif d.op == 'select' and d.optys and d.optys[0] == 'i1' and d.ty == 'i1':
+            c, a, b = d.ops
+            if a == 'true' and not truth:                # select c, true, b  == c || b
+                self._add(c, False); self._add(b, False)
+            elif b == 'false' and truth:                 # select c, a, false == c && a
+                self._add(c, True); self._add(a, True)
+            elif a == 'false' and truth:                 # !c && b
+                self._add(c, False); self._add(b, True)
+            elif b == 'true' and not truth:              # !c || b  false => c and !b
+                self._add(c, True); self._add(b, False)
         elif d.op == 'trunc' or d.op == 'zext':
             self._add(d.ops[0], truth)
         elif d.op == 'call':
@@ -191,4 +207,28 @@ def lower_bound_at(prog, fn, v, block, edge=None, depth=0):
                 return None
             los.append(l2)
         return min(los) if los else None
+    return None
+
+
+def upper_bound_at(prog, fn, v, block, edge=None, depth=0, live=None):
+    """smallest c such that v <= c is implied where `block` is left through CFG edge `edge` (or entered, without edge);
+    a phi is bounded through each of its incoming edges (restricted to predecessor blocks in `live` when given)"""
+    if INT.match(v):
+        return int(v)
+    F = Facts(prog, fn, block, extra_edge=edge)
+    hi = F.upper_bound_const(F.norm(v))
+    if hi is not None:
+        return hi
+    d = fn.defs.get(strip_int_casts(fn, v))
+    if d is not None and d.op == 'phi' and depth < 4:
+        his = []
+        for val, lab in d.incoming:
+            pb = fn.blocks[lab]
+            if live is not None and pb not in live:
+                continue
+            h2 = upper_bound_at(prog, fn, val, pb, (pb, d.bb), depth + 1, live)
+            if h2 is None:
+                return None
+            his.append(h2)
+        return max(his) if his else None
     return None
